@@ -345,8 +345,21 @@ ICUFormatNumberFunctor::cacheDecimalFormat(
     DecimalFormatCacheListType::value_type&     theEntry = 
         m_decimalFormatCache.front();
 
+    // Copy the symbols first: the copy can fail, and the caller still
+    // owns the formatter until this function returns.  An entry which
+    // already held the pointer would make the cache destroy it again.
+    try
+    {
+        theEntry.m_DFS = theDFS;
+    }
+    catch(...)
+    {
+        m_decimalFormatCache.pop_front();
+
+        throw;
+    }
+
     theEntry.m_formatter = theFormatter;
-    theEntry.m_DFS = theDFS;
 }
 
 
